@@ -226,7 +226,7 @@ func verifT3EncBuffer() {
 	var vals []interface{}
 	switch os.Getenv("VERIF_T3_TYPE") {
 	case "qstring":
-		for _, sv := range []string{"", "a", "a\"b", "\x01", "ab\x01\"", "\"\"\"\"", "abcd"} {
+		for _, sv := range []string{"", "a", "a\"b", "\x01", "ab\x01\"", "\"\"\"\"", "abcd", strings.Repeat("\x01", 400), strings.Repeat("a\x02", 3000)} {
 			vals = append(vals, verifQS{A: sv})
 		}
 	case "int8":
@@ -252,14 +252,18 @@ func verifT3EncBuffer() {
 	case "bool":
 		vals = []interface{}{true, false}
 	default:
-		for _, sv := range []string{"", "a", "a\"b", "\x01", "ab\x01\"", "\"\"\"\"", "abcd"} {
+		for _, sv := range []string{"", "a", "a\"b", "\x01", "ab\x01\"", "\"\"\"\"", "abcd", strings.Repeat("\x01", 400), strings.Repeat("a\x02", 3000)} {
 			vals = append(vals, sv)
 		}
 	}
 	for _, val := range vals {
 		sv := fmt.Sprint(val)
 		want, _ := json.Marshal(val)
-		for c := 0; c <= c0+len(want)+8; c++ {
+		step := 1
+		if len(want) > 200 {
+			step = len(want)/7 + 1
+		}
+		for c := 0; c <= c0+len(want)+8; c += step {
 			for l := 0; l <= c && l <= 2; l++ {
 				arr := make([]byte, c+64)
 				for i := range arr {
@@ -359,6 +363,8 @@ func verifT3Tokens() {
 			mk = func() interface{} { return new(map[uint32]int) }
 		case "bool":
 			mk = func() interface{} { return new(bool) }
+		case "struct_empty":
+			mk = func() interface{} { return new(struct{}) }
 		default:
 			panic("VERIF_T3_TYPE not set for a token replay")
 		}
